@@ -301,6 +301,9 @@ func (b *Balloon) QueryDigestMembershipConsistency(keyDigest hashing.Digest, ver
 	var proof MembershipProof
 	var err error
 	proof.Hasher = b.hasherF()
+	if len(keyDigest) != int(proof.Hasher.Len()/8) {
+		return nil, fmt.Errorf("invalid key digest: %d bytes instead of %d", len(keyDigest), proof.Hasher.Len()/8)
+	}
 	proof.KeyDigest = keyDigest
 	proof.CurrentVersion = b.version - 1
 
@@ -362,6 +365,9 @@ func (b *Balloon) QueryDigestMembership(keyDigest hashing.Digest) (*MembershipPr
 	var proof MembershipProof
 	var err error
 	proof.Hasher = b.hasherF()
+	if len(keyDigest) != int(proof.Hasher.Len()/8) {
+		return nil, fmt.Errorf("invalid key digest: %d bytes instead of %d", len(keyDigest), proof.Hasher.Len()/8)
+	}
 	proof.KeyDigest = keyDigest
 	proof.QueryVersion = b.version - 1
 	proof.CurrentVersion = proof.QueryVersion
